@@ -118,5 +118,28 @@ def run(E: Engine, rep: Report, tier: str) -> dict:
     ok = r2 is not None and isinstance(rv, ast.BinOp) and isinstance(rv.op, ast.Sub) and norm(rv.left) == norm(r2) and norm(rv.right).replace(" ", "") == "state.overlap(h_state)"
     rep.check(ok, "SIB", "EnergyVariance|second-moment-minus-squared-mean", "variance = <second-moment expression> - state.overlap(h_state)", f"EnergyVariance computes `{norm(rv) if rv is not None else '?'}` while EnergySecondMoment computes `{norm(r2) if r2 is not None else '?'}`: the variance must be the second moment minus the squared mean", E.where(ev))
     rep.floor("SIB", 1)
-    rep.floor("GUARD", 7)
+    # H(t) handed to the observables is evaluated on the emulator's own time axis, identically in both branches
+    gh = [n for n in own_nodes(run_) if isinstance(n, ast.Call) and isinstance(n.func, ast.Attribute) and n.func.attr == "get_hamiltonian"]
+    targs = {norm(c.args[0]).replace(" ", "") for c in gh if c.args}
+    res_ctor = [n for n in own_nodes(run_) if isinstance(n, ast.Call) and (dotted(n.func) or "") == "Results"]
+    td = next((norm(k.value) for c in res_ctor for k in c.keywords if k.arg == "total_duration"), "")
+    rep.check(len(gh) == 2 and targs == {"t*res.total_duration"} and td == "self._sim_obj.total_duration_ns", "GUARD", "QutipBackendV2.run|hamiltonian-at-emulated-time", "H(t * res.total_duration) with res.total_duration = the emulator's total duration, in both branches",
+              f"the Hamiltonian handed to the observables is evaluated at {sorted(targs)} (Results.total_duration = {td}): relative times must be scaled by the emulator's own total duration (which includes modulation fall time), identically in both branches", E.where(run_))
+    # several basis states can read as the same bitstring (g and h both read 0 with three levels): probabilities accumulate
+    bp = E.fn("pulser_simulation.qutip_state.QutipState.bitstring_probabilities")
+    acc = [n for n in own_nodes(bp) if isinstance(n, (ast.Assign, ast.AugAssign)) and isinstance((n.targets[0] if isinstance(n, ast.Assign) else n.target), ast.Subscript) and "bitstring" in norm(n.targets[0] if isinstance(n, ast.Assign) else n.target)]
+    rep.check(bool(acc) and all(isinstance(n, ast.AugAssign) and isinstance(n.op, ast.Add) for n in acc), "GUARD", "QutipState.bitstring_probabilities|accumulates", "probabilities of basis states reading as the same bitstring are summed (+=)", "bitstring probabilities are assigned instead of accumulated: with 3+ levels several basis states map to one bitstring and all but one are lost", E.where(bp))
+    # operator application on a density matrix is A rho A^dagger
+    ap = E.fn("pulser_simulation.qutip_op.QutipOperator.apply_to")
+    ok = False
+    for n in own_nodes(ap):
+        if isinstance(n, ast.If) and "isoper" in norm(n.test):
+            for st in n.body:
+                if isinstance(st, ast.Assign) and isinstance(st.value, ast.BinOp) and isinstance(st.value.op, (ast.Mult, ast.MatMult)):
+                    ok = norm(st.value.right).replace(" ", "") == "self._operator.dag()" and norm(st.value.left) == norm(st.targets[0])
+    left = any(isinstance(n, ast.Assign) and isinstance(n.value, ast.BinOp) and norm(n.value.left) == "self._operator" and "state._state" in norm(n.value.right) for n in own_nodes(ap))
+    rep.check(ok and left, "GUARD", "QutipOperator.apply_to|A-rho-A-dagger", "ket: A|psi>; density matrix: A rho A^dagger", "applying an operator to a density matrix is no longer A rho A^dagger (the right factor must be the adjoint)", E.where(ap))
+    ex = E.fn("pulser_simulation.qutip_op.QutipOperator.expect")
+    rep.check(any("qutip.expect(self._operator, state._state)" in norm(r.value) for r in returns(ex)), "GUARD", "QutipOperator.expect|qutip.expect(op,state)", "expectation = qutip.expect(operator, state)", "QutipOperator.expect changed", E.where(ex))
+    rep.floor("GUARD", 11)
     return {"atoms": {k: v[0] for k, v in atoms.items()}}
